@@ -89,6 +89,10 @@ pub struct StoreState {
     /// `remove_tombstones` removes whatever row a key names, live or not, as the bundled SQLite
     /// backend does (`DELETE ... WHERE keyspace = ? AND doc_id = ?`); otherwise only tombstones
     pub blunt_removal: bool,
+    /// ordinals (1-based, counting only calls that name at least one key) of the
+    /// `remove_tombstones` calls that fail having removed nothing
+    pub removal_faults: std::collections::BTreeSet<u64>,
+    pub removal_calls: u64,
 }
 
 /// Ordered-map storage behind the real `Storage` trait.
@@ -211,6 +215,13 @@ impl SimStorage {
                     st.arm_partial_bulk = None;
                     fault = Some(FaultKind::FailAfter(k));
                 }
+            }
+        }
+        if fault.is_none() && kind == "remove_tombstones" && n > 0 {
+            let mut st = self.st.lock();
+            st.removal_calls += 1;
+            if st.removal_faults.contains(&st.removal_calls) {
+                fault = Some(FaultKind::FailAfter(0));
             }
         }
         let limit = if let Some(p) = park {
